@@ -50,7 +50,10 @@ Operations(kind) ==
                                "intersect_location", "liftover_to_chunk", "incorporate_variant",
                                \* the object handed to the constructor of an enclosing aggregate (no parent argument)
                                "collect_into_gene", "collect_into_collection"}
-    [] kind = "gene" -> {"to_gff", "query_by_guids", "liftover_to_chunk", "incorporate_variant", "collect_into_collection"}
+    [] kind = "gene" -> {"to_gff", "query_by_guids", "liftover_to_chunk", "incorporate_variant", "collect_into_collection",
+                         \* the gene is adopted by a collection built WITH a parent (members are re-parented, by design:
+                         \* not an operand-preserving operation) and then asked where it lies
+                         "adopt_then_location"}
     [] kind = "collection" -> {"to_gff", "query_by_position", "query_by_interval_guids", "to_genbank_dict",
                                "incorporate_variant"}
 Kinds == {"location", "parent", "sequence", "cds", "transcript", "gene", "collection"}
